@@ -64,7 +64,7 @@ def _validate_props(props_map, version, **kwargs):
         for prop_name, prop_value in props_map.items():
             if not re.match(PREFIX_21_REGEX, prop_name):
                 raise ValueError("Property name '%s' must begin with an alpha character." % prop_name)
-            if not re.match(r'^[a-z0-9_]+$', prop_name):
+            if not re.match(r'^[a-z0-9_]+\Z', prop_name):
                 raise ValueError(
                     "Property name '%s' must only contain the characters a-z "
                     "(lowercase ASCII), 0-9, and underscore (_)." % prop_name,
@@ -172,7 +172,7 @@ def _register_extension(
     if ext_type.startswith('extension-definition--'):
         # "extension-definition--<UUID>": here the doubled hyphen is the
         # identifier separator, not part of a type name.
-        if not re.match(r'^[a-z0-9-]+$', ext_type.split('--', 1)[1]):
+        if not re.match(r'^[a-z0-9-]+\Z', ext_type.split('--', 1)[1]):
             raise ValueError(
                 "Invalid extension definition id '%s'." % ext_type,
             )
